@@ -252,7 +252,8 @@ Title=\"{}\"
 
                 first = 0
                 # find all used muxer-values
-                multiplexer_list = set([a.multiplex for a in frame.signals])
+                # sorted: the iteration order of a set mixing ints, None and str depends on the hash seed
+                multiplexer_list = sorted(set([a.multiplex for a in frame.signals if type(a.multiplex) == int]))
                 # ticker all used muxer-values only
                 for i in multiplexer_list:
                     if type(i) != int:
